@@ -385,7 +385,8 @@ Fixpoint paginate_loop (fuel : nat) (root : box) (H lh : Z) (ltr : bool) (i : na
         | _ => PStuck []
         end
   end.
+Definition page_fuel : nat := 500.
 Definition paginate_res (root : box) (H lh : Z) : pres :=
-  paginate_loop 500 root H lh true 0 None None true.
+  paginate_loop page_fuel root H lh true 0 None None true.
 Definition paginate (root : box) (H lh : Z) : list (side * list (Z * Z)) :=
   match paginate_res root H lh with PDone l => l | _ => [] end.
